@@ -21,10 +21,25 @@ def make_spec(kind, seed):
     return P.random_spec(random.Random(seed))
 
 
+def _warm_up(eps, top, root, spec, cwd):
+    """call every entry point once on an acceptable path so that lazy imports (and their .pyc writes) happen outside the trace"""
+    for _name, fn in eps:
+        try:
+            fn("warm_up.md")
+        except Exception:  # noqa: BLE001
+            pass
+    os.chdir(top)
+    P.wipe(top)
+    os.makedirs(root)
+    P.build_tree(root, spec)
+    os.chdir(cwd)
+
+
 def run_paths_chunk(job):
     """job = {kind, seed, paths:[str], tools:bool, tag}.  Returns
        {root, cwd, nodes, results:[{p, cls, val:{copy:[ok,reason]}, eps:{name:{refused,codes,raise,in_sb,outside,foreign,changed,out_changed}}}]}"""
     P.install_hook()
+    sys.dont_write_bytecode = True
     top, root = P.new_root(str(job.get("tag", "w")))
     old_cwd = os.getcwd()
     ro = _ro_prefixes()
@@ -37,6 +52,8 @@ def run_paths_chunk(job):
         snap0 = P.snapshot(top)
         sbrel = os.path.relpath(cwd, top)
         eps = P.entry_points(False) if job.get("tools") else []
+        if eps:
+            _warm_up(eps, top, root, spec, cwd)
         results = []
         for p0 in job["paths"]:
             p = p0.replace("{SB}", cwd)
@@ -284,4 +301,38 @@ def run_uri_chunk(job):
         return {"base": base, "realbase": realbase, "sb": sb, "nodes": nodes, "results": results}
     finally:
         os.chdir(old_cwd)
+        shutil.rmtree(top, ignore_errors=True)
+
+
+# --------------------------------------------------------------------------------------------
+# the real CLI in a subprocess (thorough tier): exit code + before/after snapshot only
+# --------------------------------------------------------------------------------------------
+
+def run_cli_subprocess_chunk(job):
+    """job = {kind, seed, paths:[str]} — `octave write --content … -- <path>` with cwd = sandbox."""
+    import subprocess
+    top, root = P.new_root("c")
+    try:
+        spec = make_spec(job["kind"], job["seed"])
+        P.build_tree(root, spec)
+        cwd = root + "/sb"
+        sbrel = os.path.relpath(cwd, top)
+        snap0 = P.snapshot(top)
+        results = []
+        for p0 in job["paths"]:
+            p = p0.replace("{SB}", cwd)
+            if "\x00" in p or not P.safe_to_drive(top, cwd, p):
+                continue
+            cls = P.classify_path(cwd, p)
+            pr = subprocess.run(["/venv/bin/octave", "write", "--content", P.OCT, "--", p], cwd=cwd, capture_output=True, text=True, timeout=120)
+            snap1 = P.snapshot(top)
+            changed = sorted(k for k in set(snap0) | set(snap1) if snap0.get(k) != snap1.get(k))
+            results.append({"p": p0, "cls": cls, "rc": pr.returncode, "err": (pr.stderr or "")[-120:], "changed": changed[:6],
+                            "out_changed": [k for k in changed if not (k == sbrel or k.startswith(sbrel + "/"))][:6]})
+            if changed:
+                P.wipe(top)
+                os.makedirs(root)
+                P.build_tree(root, spec)
+        return {"results": results}
+    finally:
         shutil.rmtree(top, ignore_errors=True)
